@@ -246,6 +246,12 @@ theorem flag_bit (flags : Nat) (k : Nat) :
   · simp [h]
   · have : flags / 2 ^ k % 2 = 0 := by omega
     simp [this]
+theorem flag_bit7 (flags : Nat) : (decide (Py.band (Py.shr (flags : Int) 7) 1 ≠ 0)) = (flags / 128 % 2 == 1) :=
+  flag_bit flags 7
+theorem flag_bit6 (flags : Nat) : (decide (Py.band (Py.shr (flags : Int) 6) 1 ≠ 0)) = (flags / 64 % 2 == 1) :=
+  flag_bit flags 6
+theorem flag_bit5 (flags : Nat) : (decide (Py.band (Py.shr (flags : Int) 5) 1 ≠ 0)) = (flags / 32 % 2 == 1) :=
+  flag_bit flags 5
 end MPEGAdaptionExtension
 
 end Acra.Lemmas.SrcTieCls
